@@ -66,21 +66,23 @@ program :
 		}
 	 | statements 
 		{ 
-			gritslex.(*lexer).processesOrFunctionsRes = $1
+			// The statements are collected in reverse order (appending at the end keeps parsing linear)
+			gritslex.(*lexer).processesOrFunctionsRes = reverseStatements($1)
 		};
 /*	 | LET functions IN processes END { }; */
 
 /* A program may consist a combination of processes, function definitions and types */
+/* The list is built back to front: $$ holds the statements that follow, in reverse order */
 statements : process_def             { $$ = []unexpandedProcessOrFunction{$1} }
-		   | process_def statements  { $$ = append([]unexpandedProcessOrFunction{$1}, $2...) }
+		   | process_def statements  { $$ = append($2, $1) }
 		   | function_def            { $$ = []unexpandedProcessOrFunction{$1} }
-		   | function_def statements { $$ = append([]unexpandedProcessOrFunction{$1}, $2...) }
+		   | function_def statements { $$ = append($2, $1) }
 		   | type_def 				 { $$ = []unexpandedProcessOrFunction{$1} }
-		   | type_def statements 	 { $$ = append([]unexpandedProcessOrFunction{$1}, $2...) }
+		   | type_def statements 	 { $$ = append($2, $1) }
 		   | assuming_def 			 { $$ = []unexpandedProcessOrFunction{$1} }
-		   | assuming_def statements { $$ = append([]unexpandedProcessOrFunction{$1}, $2...) }
+		   | assuming_def statements { $$ = append($2, $1) }
 		   | exec_def 			 	 { $$ = []unexpandedProcessOrFunction{$1} }
-		   | exec_def statements 	 { $$ = append([]unexpandedProcessOrFunction{$1}, $2...) };
+		   | exec_def statements 	 { $$ = append($2, $1) };
 
 /* A process is defined using the prc keyword */
 process_def : 
